@@ -18,7 +18,8 @@ from vf.gen import pitgen
 ID = 'C07'
 LEVEL = 'exploration'
 RULE = ('cases = random G-PIT programs (BatchNorm after conv/linear, bias on/off, depthwise, '
-        'residual add, concat, two-input forwards, a fixed first layer) x fold_bn on/off x model '
+        'residual add, concat, two-input forwards, a fixed first layer, a conv(+BatchNorm) invoked twice) '
+        'x fold_bn on/off x model '
         'handed over in train or eval mode, user-placed searchable layers with '
         'autoconvert_layers=False; G-MPS programs x train/eval hand-over (mode flags only); G-SN '
         'networks: identical-copy branches under the initial uniform mixture, and every branch '
@@ -44,6 +45,10 @@ def cases(tier, seed):
         cs.append({'kind': 'pit', 'prog_seed': seed * 1000003 + 60000 + i,
                    'family': '1d' if i % 2 == 0 else '2d', 'fold': (i // 2) % 2 == 1,
                    'train': (i // 4) % 2 == 1, 'seed': seed * 7919 + i})
+    for i in range(32 if tier == 'quick' else 400):
+        cs.append({'kind': 'pit-reuse', 'prog_seed': seed * 29 + i, 'family': '1d' if i % 2 else '2d',
+                   'fold': (i // 2) % 2 == 1, 'train': False, 'same': (i // 4) % 2 == 0,
+                   'with_bn': (i // 8) % 2 == 0, 'seed': seed * 47 + i})
     for i in range(40 if tier == 'quick' else 500):
         cs.append({'kind': 'pit-manual', 'prog_seed': seed * 31 + i, 'family': '1d' if i % 2 else '2d',
                    'fold': False, 'train': i % 4 < 2, 'seed': seed * 37 + i})
@@ -85,7 +90,9 @@ def flags_of(wrapper):
 
 def run_pit(case, ctx):
     rng = random.Random(case['prog_seed'])
-    if case['kind'] == 'pit-manual':
+    if case['kind'] == 'pit-reuse':
+        prog = pitgen.reuse_program(rng, case['family'], case['same'], case['with_bn'])
+    elif case['kind'] == 'pit-manual':
         prog = pitgen.manual_program(rng, case['family'])
     else:
         prog = pitgen.gen_valid_program(rng, family=case['family'],
